@@ -233,6 +233,15 @@ class BridgeRun:
             g = {"cls": "unreadable:" + type(x).__name__}
         g["br"] = br
         self.keepalive.append(dev)
+        # the object is the user's now: it keeps it, renames it, does its own bookkeeping on it.  What the NEXT broadcast is
+        # delivered as must not depend on that (a decoder that hands out the object of an earlier, identical broadcast again)
+        for attr, val in (("name", "renamed by the user"), ("ip_address", "0.0.0.0"), ("device_state", None), ("device_key", "zz"),
+                          ("remaining_time", "never"), ("position", -1), ("target_temperature", -1)):
+            if hasattr(dev, attr):
+                try:
+                    setattr(dev, attr, val)
+                except Exception:  # noqa: BLE001 - an immutable device object is as good
+                    pass
         if self.burst is not None:
             tag = int(dev.device_id, 16) if isinstance(getattr(dev, "device_id", None), str) and len(dev.device_id) == 6 else -1
             item = self.burst.get(tag)
